@@ -1041,6 +1041,23 @@ func (cg *ConsumerGroup) assignTopicPartitions(conn coordinator, group joinGroup
 		return nil, err
 	}
 
+	if err != nil && len(topics) > 1 {
+		// the metadata request fails as a whole when one of the topics doesn't
+		// exist: ask for each topic on its own, so that the topics that do exist
+		// still get their partitions assigned.
+		partitions = partitions[:0]
+		for _, topic := range topics {
+			topicPartitions, err := conn.readPartitions(topic)
+			if err != nil {
+				if errors.Is(err, UnknownTopicOrPartition) {
+					continue
+				}
+				return nil, err
+			}
+			partitions = append(partitions, topicPartitions...)
+		}
+	}
+
 	cg.withLogger(func(l Logger) {
 		l.Printf("using '%v' balancer to assign group, %v", group.GroupProtocol, cg.config.ID)
 		for _, member := range members {
